@@ -35,7 +35,7 @@ def c01_1(ctx):
         raise AnalysisError("verify signature changed: %s" % ps)
     sig = ps[2]
     keys = ["%s.r" % sig, "%s.s" % sig]
-    return rl.accept_set(ctx, "pecc:S256Point.verify", keys, ISet.range(1, N - 1), NAMES, prefer=(0, N, N + 1))
+    return rl.accept_set(ctx, "pecc:S256Point.verify", keys, ISet.range(1, N - 1), NAMES, prefer=(0, N, N + 1, N - 1, 1), exact=True)
 
 
 def c01_2(ctx):
@@ -135,7 +135,7 @@ def c01_6(ctx):
     """PrivateKey.__init__: secret ∈ [1, N-1] at normal exit (pecc); cecc defers to libsecp (sibling note)"""
     mod, fn = rl.get(ctx, "pecc:PrivateKey.__init__")
     sec = param_names(fn)[1]
-    out = rl.accept_set(ctx, "pecc:PrivateKey.__init__", [sec], ISet.range(1, N - 1), NAMES, targets="returns", prefer=(0, N))
+    out = rl.accept_set(ctx, "pecc:PrivateKey.__init__", [sec], ISet.range(1, N - 1), NAMES, targets="returns", prefer=(0, N, N - 1, 1), exact=True)
     return out
 
 
@@ -488,6 +488,60 @@ def c01_12(ctx):
     return out
 
 
+def _is_r_compare(fn, nid, c, sig):
+    """Compare node relating <sig>.r to a value derived from the computed point's x coordinate -> True"""
+    if not (isinstance(c, ast.Compare) and len(c.ops) == 1 and isinstance(c.ops[0], (ast.Eq, ast.NotEq))):
+        return False
+    l, r = c.left, c.comparators[0]
+    rk = "%s.r" % sig
+    lr = dotted(expand(fn, nid, l)) == rk
+    rr = dotted(expand(fn, nid, r)) == rk
+    if lr == rr:
+        return False
+    oo = origins(fn, nid, r if lr else l)
+    return "attrname:x" in oo or "attrname:num" in oo or "call:xonly" in oo
+
+
+def c01_13(ctx):
+    """verify: a non-false verdict is only reachable through the comparison of r with the computed x coordinate
+    (pecc) / is the library's verdict (cecc) -- no side table, flag or earlier result can stand in for the equation"""
+    out = []
+    spec = "pecc:S256Point.verify"
+    mod, fn = rl.get(ctx, spec)
+    sig = param_names(fn)[2]
+    direct, other = [], []
+    for n in rl.nonfalse_returns(fn):
+        v = expand(fn, n.id, n.ast.value) if n.ast is not None and n.ast.value is not None else None
+        if v is not None and any(_is_r_compare(fn, n.id, c, sig) and isinstance(c.ops[0], ast.Eq) for c in ast.walk(n.ast.value)) \
+                and not any(isinstance(b, ast.BoolOp) and isinstance(b.op, ast.Or) for b in ast.walk(n.ast.value)):
+            direct.append(n)
+        else:
+            other.append(n)
+
+    def match(node, ex, atoms):
+        if _is_r_compare(fn, node.id, node.ast, sig):
+            return BAD_FALSE if isinstance(node.ast.ops[0], ast.Eq) else BAD_TRUE
+        return None
+    if other:
+        out.append(rl.guard(ctx, spec, match, targets=lambda m, f: other, fail="raise_or_false",
+                            what="non-false verdict depends on the equation", key="verdict-source"))
+    elif direct:
+        out.append(ctx.ok(spec, "every non-false exit returns the comparison of r with the computed x coordinate itself (%d exit(s))" % len(direct),
+                          fn, mod, key="verdict-source"))
+    else:
+        raise AnalysisError("verify has no non-false exit")
+    spec = "cecc:S256Point.verify"
+    mod, fn = rl.get(ctx, spec, ctx.repo_c)
+    for n in rl.nonfalse_returns(fn):
+        oo = origins(fn, n.id, n.ast.value) if n.ast is not None and n.ast.value is not None else set()
+        if "call:secp256k1_ecdsa_verify" in oo:
+            out.append(ctx.ok(spec, "the verdict returned at line %d is libsecp256k1's" % n.lineno, n.ast, mod, key="verdict-source"))
+        else:
+            out.append(ctx.bad(spec, "line %d returns a non-false verdict `%s` that does not come from secp256k1_ecdsa_verify" % (
+                n.lineno, ast.unparse(n.ast.value) if n.ast is not None and n.ast.value is not None else "None"), n.ast or fn, mod, key="verdict-source"))
+    return out
+
+
 OBLIGATIONS = [
     ("C01.1", "RANGE accept-set", c01_1),
     ("C01.2", "GUARD relation", c01_2),
@@ -501,5 +555,6 @@ OBLIGATIONS = [
     ("C01.10", "EXACT", c01_10),
     ("C01.11", "GUARD", c01_11),
     ("C01.12", "RANGE reader domain", c01_12),
+    ("C01.13", "GUARD verdict source", c01_13),
 ]
 FLOORS = {"C01.1": 2, "C01.4": 2, "C01.5": 2, "C01.8": 8, "C01.9": 5, "C01.10": 4}
